@@ -1,9 +1,14 @@
 import Drivers.Proto
 import St4sd.Model.Loop
+import St4sd.Model.LoopMulti
 /-! Model driver for property C05 (DoWhile unrolling).
 
-Request `{"op":"run","num":bool,"k":n,"doc":{…},"out":[comp…]}` → `{"steps":[snapshot_0 … snapshot_k]}` where
-snapshot_j describes the model workflow after `j` further iterations. -/
+Request `{"op":"runm","num":bool,"docs":[doc…],"out":[comp…],"ops":[["adv",i] | ["read"] …]}` →
+`{"steps":[snapshot_0 … snapshot_n]}`: snapshot_0 describes the model workflow as loaded, snapshot_j the workflow
+after the first `j` operations (`Loop.runOps`).
+
+Request `{"op":"run","num":bool,"k":n,"doc":{…},"out":[comp…]}` (one document, `Loop.run`) →
+`{"steps":[snapshot_0 … snapshot_k]}`. -/
 open Lean Proto St4sd.Loop
 
 def getOptNat (j : Json) (k : String) : Except String (Option Nat) :=
@@ -53,6 +58,23 @@ def snapshot (num : Bool) (d : Doc) (w : Wf) : Json :=
     ("cond", jopt jid (latestCond d cs)),
     ("condFile", jchars d.condFile)]
 
+/-- snapshot of a workflow with several DoWhile documents -/
+def snapshotM (num : Bool) (ds : List Doc) (w : Wf) : Json :=
+  let cs := w.comps
+  jobj [
+    ("comps", jarr (cs.map fun c => jobj [("id", jid c.id), ("refs", jarr (c.refs.map jref)), ("args", jarr (c.args.map jref))])),
+    ("edges", jarr (w.edges.map fun e => jarr [jid e.1, jid e.2])),
+    ("placeholders", jarr ((placeholdersM num ds cs).map fun q =>
+        let p := q.2
+        jobj [("id", jid p.id), ("represents", jarr (p.represents.map jid)), ("latest", jopt jid p.latest),
+              ("ref", jopt jid (resolveProducerM num ds cs p.id)),
+              ("maplatest", jopt jid (mapPlaceholderLatest num cs p.id)),
+              ("loopref", jarr ((loopRefOrderM num ds cs p.id).map jid)),
+              ("preds", jarr ((ctlPredecessors ds cs p.id).map jid))])),
+    ("docs", jarr (ds.map fun d =>
+        jobj [("iter", jnat (curIter d cs)), ("cond", jopt jid (latestCond d cs)), ("condFile", jchars d.condFile)])),
+    ("ctlConditions", jarr ((ctlConditions ds cs).map (jopt jid)))]
+
 def runAll (d : Doc) (out : List Comp) : Nat → List Wf
   | 0 => [init d out]
   | k + 1 =>
@@ -60,9 +82,29 @@ def runAll (d : Doc) (out : List Comp) : Nat → List Wf
     | [] => []
     | w :: ws => step d w :: w :: ws
 
+def parseOp (j : Json) : Except String Op := do
+  match j with
+  | Json.arr a =>
+    match a.toList with
+    | [Json.str "adv", i] => return Op.advance (← i.getNat?)
+    | Json.str "read" :: _ => return Op.read
+    | _ => throw "bad op"
+  | _ => throw "bad op"
+
+/-- the workflows after every prefix of the operations (`Loop.runOps` of the prefixes), newest first -/
+def runOpsAll (ds : List Doc) (w : Wf) : List Op → List Wf → List Wf
+  | [], acc => w :: acc
+  | o :: ops, acc => runOpsAll ds (applyOp ds o w) ops (w :: acc)
+
 def handle (j : Json) : Except String Json := do
   let op ← getStr j "op"
   match op with
+  | "runm" =>
+    let num ← getBool j "num"
+    let ds ← (← getArr j "docs").mapM parseDoc
+    let out ← (← getArr j "out").mapM parseComp
+    let ops ← (← getArr j "ops").mapM parseOp
+    return jobj [("steps", jarr ((runOpsAll ds (initM ds out) ops []).reverse.map (snapshotM num ds)))]
   | "run" =>
     let num ← getBool j "num"
     let k ← getNat j "k"
